@@ -4,6 +4,7 @@ import copy
 
 import dns.exception
 import dns.flags
+import dns.edns
 import dns.message
 import dns.name
 import dns.opcode
@@ -27,7 +28,7 @@ ASSUMPTIONS = [
     "reference wire walker and name decoder; RDATA decoded with dns.rdata.from_wire (C02)",
     "maximality of the kept prefix is not demanded; TooBig under prefer_truncation is legitimate only when header+question-less OPT/padding/TSIG alone exceed the limit",
 ]
-REQUIRED = ["mon.render_under_limit", "mon.prefix_check", "mon.tc_rule", "mon.padding_multiple", "mon.toobig_legitimacy", "mon.truncated_outcomes"]
+REQUIRED = ["mon.padding_option_already_present", "mon.render_under_limit", "mon.prefix_check", "mon.tc_rule", "mon.padding_multiple", "mon.toobig_legitimacy", "mon.truncated_outcomes"]
 BUDGET = {"quick": 32.0, "thorough": 480.0}
 
 
@@ -176,10 +177,11 @@ def check_limit(ctx, spy, m, info, key, L, prefer, full_len, min_len, want_sets,
         if m2.ednsflags != m.ednsflags or m2.payload != m.payload:
             ctx.violation(f"opt-fields-changed:{tag}", "", case)
         o2 = [o for o in m2.options if int(o.otype) != 12]
-        if o2 != list(m.options):
+        if o2 != [o for o in m.options if int(o.otype) != 12]:
             ctx.violation(f"opt-options-changed:{tag}", "", case)
         npad = sum(1 for o in m2.options if int(o.otype) == 12)
-        if npad != (1 if m.pad else 0):
+        had = sum(1 for o in m.options if int(o.otype) == 12)  # a padding option already present (a re-rendered padded message) is kept
+        if npad != had + (1 if m.pad else 0):
             ctx.violation(f"padding-option-count-wrong:{tag}", f"{npad}", case)
     for i in range(4):
         if m2.section_count(i) != walk["counts"][i]:
@@ -208,6 +210,10 @@ def run(spec, ctx):
             pad = rng.choice((0, 0, 16, 128, 468))
             if pad:
                 opts = list(m.options)
+                if rng.random() < 0.25:
+                    # as when a padded message that was parsed is rendered again: its OPT already carries a PADDING option
+                    opts.insert(rng.randrange(len(opts) + 1), dns.edns.GenericOption(dns.edns.OptionType.PADDING, b"\x00" * rng.choice((0, 1, 7, 40, 200))))
+                    ctx.count("mon.padding_option_already_present")
                 m.use_edns(max(m.edns, 0), m.ednsflags, m.payload or 1232, options=opts, pad=pad)
                 info["edns"] = m.edns
             key = None
